@@ -25,14 +25,21 @@ package types
 
 //@ import ethtypes "github.com/ethereum/go-ethereum/core/types"
 
-// msg.go (*MsgEthereumTx).ValidateBasic: From parses as bech32, MarshalledTx decodes, validateBasic(ethTx) accepts (gas bounds,
-// non-negative 256-bit amounts and fee, fee cap >= tip cap, ...). TRUSTED SUMMARY: the last part is an uninterpreted predicate of
-// the bytes; the one consequence the ante clauses use (the gas bounds, msg.go validateBasic lines "gas < TxGas-1" / "gas >
-// MaxInt64") is stated.
-//@ ghost func ethTxBasicValid(b bytes) bool
+// msg.go (*MsgEthereumTx).ValidateBasic (VERIFIED): From parses as bech32, MarshalledTx decodes, and the decoded transaction
+// passes validateBasic. ethTxBasicValid(b): the facts about the bytes that the ante handlers and fee checkers rely on.
+//@ ghost func ethTxBasicValid(b bytes) bool = 20999 <= decGas(b) && decGas(b) < pow2(63) && 0 <= decFeeCap(b) && decFeeCap(b) < pow2(256) && (decType(b) == 2 ==> (0 <= decTipCap(b) && decTipCap(b) <= decFeeCap(b))) && decFeeCap(b) * decGas(b) < pow2(256)
 //@ func (msg *MsgEthereumTx) ValidateBasic() (err error)
-//@   assumed
+//@   requires msg != nil
 //@   modifies nothing
-//@   ensures (err == nil) == (bech32Valid(msg.From) && txDecodable(bytes(msg.MarshalledTx)) && ethTxBasicValid(bytes(msg.MarshalledTx)))
-//@   ensures err == nil ==> (20999 <= decGas(bytes(msg.MarshalledTx)) && decGas(bytes(msg.MarshalledTx)) < pow2(63))
-//@   panics only_if msg == nil
+//@   ensures[C05.msg_basic,C06.msg_basic,C07.msg_basic,C09.msg_basic] err == nil ==> (bech32Valid(msg.From) && txDecodable(bytes(msg.MarshalledTx)) && ethTxBasicValid(bytes(msg.MarshalledTx)))
+//@   panics never
+
+// msg.go validateBasic (VERIFIED): what an accepted embedded transaction guarantees to the fee checkers and to the state
+// transition: gas limit in [TxGas-1, MaxInt64], non-negative fee fields below 2^256 with tip cap <= fee cap, and a declared
+// fee (fee cap x gas) below 2^256.
+//@ func validateBasic(ethTx *ethtypes.Transaction) (err error)
+//@   requires ethTx != nil
+//@   modifies nothing
+//@   ensures[C05.basic_gas_bounds,C09.basic_gas_bounds] err == nil ==> (20999 <= txGas(ethTx) && txGas(ethTx) < pow2(63))
+//@   ensures[C05.basic_fee_fields,C09.basic_fee_fields] err == nil ==> (0 <= txFeeCap(ethTx) && txFeeCap(ethTx) < pow2(256) && (txType(ethTx) == 2 ==> (0 <= txTipCap(ethTx) && txTipCap(ethTx) <= txFeeCap(ethTx))) && txFeeCap(ethTx) * txGas(ethTx) < pow2(256))
+//@   panics never
